@@ -465,3 +465,43 @@ def flush_raises_family(thin: int = 1) -> List[dict]:
                             steps.extend(copy.deepcopy(DRAIN))
                             cases.append({"pools": [{"cls": "TaskPool", "size": size}], "steps": steps})
     return cases[::thin] if thin > 1 else cases
+
+
+def rejected_then_cancel_family(thin: int = 1) -> List[dict]:
+    """A request is rejected (duplicate name, non-coroutine function, num_concurrent < 1, locked pool) while the group whose name it
+    used - or another one - still has a spawner waiting for room; then that group is cancelled or goes on:
+
+        spawn A (named, blocked on a full pool) ; tick t1 ; <rejected request> ; tick t2 ; cancel_group(A) / cancel_all / nothing ;
+        gate k ; settle ; drain"""
+    cases: List[dict] = []
+    w = {"script": [["wait"]], "fname": "w"}
+    for size in (1, 2):
+        for ka in ("apply", "map"):
+            a = {"op": "spawn", "pool": 0, "kind": ka, "place": "inline", "gname": [0, 1], "worker": dict(w)}
+            a.update({"num": 4} if ka == "apply" else {"n": 4, "nc": 2})
+            rejected: List[List[dict]] = []
+            for kb in ("apply", "map", "starmap", "doublestarmap"):
+                b = {"op": "spawn", "pool": 0, "kind": kb, "place": "inline", "gname": [0, 1], "worker": dict(w)}
+                b.update({"num": 2} if kb == "apply" else {"n": 2, "nc": 1})
+                rejected.append([b])                                                                        # duplicate name
+                rejected.append([dict(b, op="bad_spawn", bad=["func"], func_kind=0)])                      # ... and not a coroutine function
+                if kb != "apply":
+                    rejected.append([dict(b, op="bad_spawn", bad=["nc"], nc_val=0, gname=[0, 2])])          # fresh name, num_concurrent 0
+                rejected.append([{"op": "lock", "pool": 0, "place": "inline"}, dict(b, gname=[0, 2]), {"op": "unlock", "pool": 0, "place": "inline"}])
+            for rej in rejected:
+                for after in ("group", "all", None):
+                    for t1, t2 in itertools.product(range(3), range(2)):
+                        for k in range(2):
+                            steps = [copy.deepcopy(a)]
+                            _ticks(steps, t1)
+                            steps.extend(copy.deepcopy(rej))
+                            _ticks(steps, t2)
+                            if after == "group":
+                                steps.append({"op": "cancel_group", "pool": 0, "ref": ["live", 0], "place": "inline"})
+                            elif after == "all":
+                                steps.append({"op": "cancel_all", "pool": 0, "place": "inline"})
+                            steps.append({"op": "gate", "k": k, "place": "inline"})
+                            steps.append({"op": "settle"})
+                            steps.extend(copy.deepcopy(DRAIN))
+                            cases.append({"pools": [{"cls": "TaskPool", "size": size}], "steps": steps})
+    return cases[::thin] if thin > 1 else cases
